@@ -747,3 +747,46 @@ Proof.
   exists c'. split; auto. split; auto. split; [|split; auto].
   apply NoDup_Permutation; auto using undirected_edges_NoDup.
 Qed.
+
+(* ------------------------------------------------------------------ frame: operations on one morphology cannot change
+   another one built from the same arrays (nor the arrays themselves: `to_root c i` is a new list, `c` is a value).
+   Any interleaving of re-rootings of A and B gives what each sequence gives alone. *)
+Theorem run_two_independent : forall ops cA cB,
+    run_two cA cB ops =
+    match to_root_seq cA (ops_of MA ops), to_root_seq cB (ops_of MB ops) with
+    | Ok a, Ok b => Ok (a, b)
+    | _, _ => run_two cA cB ops
+    end.
+Proof.
+  intros ops cA cB.
+  destruct (to_root_seq cA (ops_of MA ops)) as [a| |] eqn:EA; auto.
+  destruct (to_root_seq cB (ops_of MB ops)) as [b| |] eqn:EB; auto.
+  revert cA cB a b EA EB.
+  induction ops as [|[[|] i] t IH]; intros cA cB a b EA EB.
+  - simpl in *. congruence.
+  - unfold ops_of in EA, EB. simpl in EA, EB. fold (ops_of MA t) in EA. fold (ops_of MB t) in EB.
+    simpl. destruct (to_root cA i) as [c| |]; try discriminate. eapply IH; eauto.
+  - unfold ops_of in EA, EB. simpl in EA, EB. fold (ops_of MA t) in EA. fold (ops_of MB t) in EB.
+    simpl. destruct (to_root cB i) as [c| |]; try discriminate. eapply IH; eauto.
+Qed.
+
+Theorem run_two_frame : forall ops c,
+    tree_parent c -> (forall o, In o ops -> 0 <= snd o < zlen c) ->
+    exists a b, run_two c c ops = Ok (a, b) /\
+                to_root_seq c (ops_of MA ops) = Ok a /\ to_root_seq c (ops_of MB ops) = Ok b /\
+                Permutation (undirected_edges a) (undirected_edges c) /\
+                Permutation (undirected_edges b) (undirected_edges c) /\
+                tree_parent a /\ tree_parent b /\
+                (ops_of MB ops = [] -> b = c) /\ (ops_of MA ops = [] -> a = c).
+Proof.
+  intros ops c Ht Hin.
+  assert (HinW : forall w i, In i (ops_of w ops) -> 0 <= i < zlen c).
+  { intros w i Hi. unfold ops_of in Hi. apply in_map_iff in Hi. destruct Hi as [o [<- Ho]].
+    apply filter_In in Ho. apply Hin. tauto. }
+  destruct (to_root_seq_tree_perm (ops_of MA ops) c Ht (HinW MA)) as [a [A1 [_ [A3 [_ A5]]]]].
+  destruct (to_root_seq_tree_perm (ops_of MB ops) c Ht (HinW MB)) as [b [B1 [_ [B3 [_ B5]]]]].
+  exists a, b. rewrite run_two_independent, A1, B1.
+  repeat (split; auto).
+  - intros E. rewrite E in B1. simpl in B1. congruence.
+  - intros E. rewrite E in A1. simpl in A1. congruence.
+Qed.
